@@ -27,6 +27,7 @@ type Obligation struct {
 	Native bool                   // render products with native * (closed lemmas)
 	Inputs []string               // names of the SMT constants that are function inputs (for replay)
 	Bounded string                // non-empty => this is a bounded stand-in, never counted as proved
+	Lean    string                // non-empty => an inductive lemma: discharged by checking this theorem with Lean 4 + Mathlib
 
 	// results
 	Status  string // unsat(proved) sat unknown timeout error
@@ -369,6 +370,18 @@ func parseModel(out string) map[string]string {
 func (o *Obligation) Discharge(timeout int) {
 	tw := time.Now()
 	defer func() { o.Wall = time.Since(tw).Seconds() }()
+	if o.Lean != "" {
+		ok, out, secs := leanCheck(o.Lean)
+		o.Seconds = secs
+		o.Solver = "lean4+mathlib"
+		o.Output = out
+		if ok {
+			o.Status = "unsat"
+		} else {
+			o.Status = "error"
+		}
+		return
+	}
 	if o.Goal.IsTrue() {
 		o.Status, o.Solver = "unsat", "simplifier"
 		return
@@ -468,4 +481,40 @@ func DischargeAll(obs []*Obligation, timeout int) {
 		}(o)
 	}
 	wg.Wait()
+}
+
+// ---------- inductive lemmas: checked by Lean ----------
+
+var leanOnce sync.Once
+var leanOK bool
+var leanOut string
+var leanSecs float64
+
+// leanFile holds the Lean statements of the inductive lemma-library rules (powers).
+var leanFile = "/verif/lean/PowLemmas.lean"
+
+// leanCheck runs `lean` once per process on the lemma file (it proves every theorem in it or
+// fails) and then checks that the named theorem is stated there.
+func leanCheck(theorem string) (bool, string, float64) {
+	leanOnce.Do(func() {
+		t0 := time.Now()
+		ctx, cancel := context.WithTimeout(context.Background(), 900*time.Second)
+		defer cancel()
+		cmd := exec.CommandContext(ctx, "lean", leanFile)
+		out, err := cmd.CombinedOutput()
+		leanSecs = time.Since(t0).Seconds()
+		leanOut = string(out)
+		leanOK = err == nil && !strings.Contains(leanOut, "error")
+	})
+	src, err := os.ReadFile(leanFile)
+	if err != nil {
+		return false, err.Error(), 0
+	}
+	if !leanOK {
+		return false, "lean " + leanFile + " failed:\n" + leanOut, leanSecs
+	}
+	if !regexp.MustCompile(`(?m)^theorem\s+` + regexp.QuoteMeta(theorem) + `\b`).Match(src) {
+		return false, "theorem " + theorem + " is not stated in " + leanFile, leanSecs
+	}
+	return true, "lean " + leanFile + ": all theorems checked (" + theorem + ")", leanSecs
 }
